@@ -28,9 +28,9 @@ var (
 		Mode:       ICWS88,
 		CoreSize:   8192,
 		Processes:  8000,
-		Cycles:     10000,
-		ReadLimit:  8000,
-		WriteLimit: 8000,
+		Cycles:     100000,
+		ReadLimit:  8192,
+		WriteLimit: 8192,
 		Length:     300,
 		Distance:   100,
 	}
